@@ -1191,6 +1191,12 @@ def b_isnan(I, f, args, kw):
     return VBool(z3.And(PyVal.is_PF(t), isnan_f(t)))
 
 
+def b_fromordinal(I, f, args, kw):
+    x = args[0]
+    t = x.t if isinstance(x, VInt) else toint(to_pyval(x))
+    return VAny(PyVal.PD(t))
+
+
 def b_opaque(tag):
     def h(I, f, args, kw):
         return VOpaque(tag)
@@ -1205,5 +1211,5 @@ BUILTINS = {
     'getattr': b_getattr, 'symmethod': b_symmethod, 'hasattr': b_hasattr, 'id': b_id,
     'hash': b_hash, 'callable': b_callable, 'iter': b_iter, 'next': b_next, 'repr': b_repr,
     'sorted': b_sorted, 'reversed': b_reversed, 'abs': b_abs, 'print': b_print,
-    'combine': b_combine, 'isfinite': b_isfinite, 'isnan': b_isnan, 'time': b_opaque('time'),
+    'combine': b_combine, 'isfinite': b_isfinite, 'fromordinal': b_fromordinal, 'isnan': b_isnan, 'time': b_opaque('time'),
 }
